@@ -145,7 +145,7 @@ func cmdCheck(args []string) {
 	byBackend := map[string]int{}
 	solverTime := 0.0
 	nObl, nDis, nCover := 0, 0, 0
-	var samples []map[string]string
+	samples := []map[string]string{}
 	var engineErrs []string
 	e.VerifyAll(units, func(res *UnitResult) {
 		u := res.Unit
@@ -250,6 +250,9 @@ func cmdCheck(args []string) {
 	var boundedRes []map[string]interface{}
 	for _, h := range cfg.Bounded {
 		br := runHarness(h, *repo, *verif, *tier, seed, "")
+		for _, sm := range br.samples {
+			samples = append(samples, map[string]string{"bounded_case": sm, "harness": h.Name})
+		}
 		boundedRes = append(boundedRes, map[string]interface{}{"name": h.Name, "note": h.Note, "bound": br.bound, "cases": br.cases, "ok": br.ok, "wall_s": br.wall, "label": "bounded (not counted as proved)"})
 		if !br.ok {
 			// known findings may be identified by harness case
@@ -436,6 +439,7 @@ type harnessResult struct {
 	err   string
 	wall  float64
 	cmd   string
+	samples []string
 }
 
 // runHarness runs a Go test from /verif/replay inside a /repo package via
@@ -488,6 +492,9 @@ func runHarness(h Harness, repo, verif, tier string, seed int, obligation string
 		l = strings.TrimSpace(l)
 		if i := strings.Index(l, "REPLAY-FAIL "); i >= 0 {
 			res.fails = append(res.fails, l[i+len("REPLAY-FAIL "):])
+		}
+		if i := strings.Index(l, "REPLAY-SAMPLE "); i >= 0 && len(res.samples) < 5 {
+			res.samples = append(res.samples, l[i+len("REPLAY-SAMPLE "):])
 		}
 		if i := strings.Index(l, "REPLAY-CASES "); i >= 0 {
 			n, _ := strconv.Atoi(strings.Fields(l[i+len("REPLAY-CASES "):])[0])
